@@ -2,7 +2,10 @@ from .common import COMMON_TB
 
 CFG = dict(
     coq="Properties/C03.v",
-    areas=["c03"],
+    areas=["c03", "lzmaenc"],
+    # lzmaenc belongs to C01; here only the reference implementation's verdict on the .lzma / raw LZMA2
+    # streams the crate wrote counts (the .lzma and LZMA2 clauses of C03)
+    oracle_filter={"lzmaenc": r"liblzma"},
     level="proof",
     theorems_expected=["C03_out_xz", "C03_out_xz_refuted", "C03_out_lzip", "C03_in_lzip"],
     rule="three-way tie, cases derived from VERIF_SEED by SplitMix64: (1) crate -> reference: files written by XZWriter/LZIPWriter over the "
